@@ -300,7 +300,7 @@ func limitPaths(fn *ssa.Function) []slicefx.ParamPath {
 
 func runC01(c *Ctx) {
 	r := c.R
-	r.Rule("O-1", "bound: at every return of every search entry point the list is empty or bounded by the function's own limit (guarded prefix reslice, bounded callee with the same limit, length-preserving conversion, one-append-per-iteration builder); the list the CLI prints is bounded by the limit handed to the engine")
+	r.Rule("O-1", "bound: at every return of every search entry point the list is empty or bounded by the function's own limit (guarded prefix reslice, bounded callee with the same limit, length-preserving conversion, one-append-per-iteration builder); the list the CLI prints is bounded by the limit handed to the engine; the limit is part of the cache key, unchanged, wherever cache options are built")
 	r.Rule("O-2", "default: a limit used as a reslice bound is proven >= 1, as a capacity >= 0, on every path (the `<= 0 -> default` guard)")
 	r.Rule("O-3", "order: every entry point returns a list sorted by descending Score (or empty)")
 	r.Rule("O-4", "membership: every SearchResult.Command stored is &db.Commands[i], a pass-through, or the cache's comma-ok assertion; never the address of a copy")
@@ -318,6 +318,16 @@ func runC01(c *Ctx) {
 	be.InScope = func(fn *ssa.Function) bool { return isShipped(c, fn) }
 	for _, fn := range entries {
 		be.Roots[fn] = true
+	}
+
+	// a cached answer is bounded by the limit of the request that filled the
+	// entry: it is bounded by the limit of the request it answers only if the
+	// limit is part of the key, unchanged (the projection rule of C05 O-1,
+	// for this one field)
+	if all, _ := optionReads(c); all != nil {
+		if pos, ok := all["Limit"]; ok {
+			c05Projection(c, symx.New(c.P.IsRepoFunc), "O-1", []string{"Limit"}, map[string][]string{"Limit": pos}, 1)
+		}
 	}
 
 	for _, fn := range entries {
